@@ -153,7 +153,7 @@ Proof. unfold wake_kont. destruct (snd w); reflexivity. Qed.
 
 Lemma kA_wakeup_next s0 i s : keepA s0 s -> keepA s0 (wakeup_next i s).
 Proof.
-  intros K. unfold wakeup_next. destruct (b_waiters (get_blk i s)); [exact K|].
+  intros K. unfold wakeup_next. destruct (drop_done (b_waiters (get_blk i s))); [apply kA_upd, K|].
   apply kA_push; [apply harmless_wake|]. apply kA_upd, K.
 Qed.
 Lemma kA_abort_waiters s0 i s : keepA s0 s -> keepA s0 (abort_waiters i s).
@@ -161,7 +161,7 @@ Proof.
   intros K. unfold abort_waiters.
   change (ready s) with (ready (upd (set_b_waiters [] (get_blk i s)) s)).
   apply kA_append; [|apply kA_upd, K].
-  induction (b_waiters (get_blk i s)); cbn; [reflexivity|]. rewrite harmless_wake. assumption.
+  induction (filter _ (b_waiters (get_blk i s))); cbn; [reflexivity|]. rewrite harmless_wake. assumption.
 Qed.
 Lemma kA_block_release s0 i c s : keepA s0 s -> keepA s0 (block_release i c s).
 Proof. intros K. unfold block_release. apply kA_wakeup_next, kA_upd, K. Qed.
@@ -465,6 +465,14 @@ Proof.
     rewrite E, !cnt_cons in *; rewrite ?h1, ?h2, ?h3, ?h4, ?Hb in *; cbn [b2z] in *; lia.
 Qed.
 
+Lemma cnt_map_same f (g : kont -> kont) l : (forall k, f (g k) = f k) -> cnt f (map g l) = cnt f l.
+Proof. intros H. induction l as [|k l IH]; cbn [map]; [reflexivity|]. rewrite !cnt_cons, H, IH. reflexivity. Qed.
+Lemma cancel_kont_kinds t k :
+  is_cstart (cancel_kont t k) = is_cstart k /\ is_cfail (cancel_kont t k) = is_cfail k /\
+  is_dwake (cancel_kont t k) = is_dwake k /\ is_bstart (cancel_kont t k) = is_bstart k /\
+  is_bwake (cancel_kont t k) = is_bwake k.
+Proof. destruct k; cbn; repeat split; try reflexivity; destruct (_ =? _)%N; reflexivity. Qed.
+
 Lemma step_Inv1 s e o s' :
   discs_open s -> Inv1 s -> step s e o = Some s' -> Inv1 s'.
 Proof.
@@ -521,11 +529,20 @@ Proof.
   - (* EGc *)
     destruct (_ <? _); inversion St; subst. eapply keepA_Inv1; [|exact I].
     apply kA_run_gc. eapply sameA_keepA; [|apply keepA_refl]. sameA_tac.
+  - (* ECancel *)
+    unfold cancel in St. cbn [ready blocks set_outs] in St.
+    destruct (existsb (is_task t) (ready s)).
+    + inversion St; subst; clear St. destruct I as [A B].
+      split; [|intros Ee; specialize (B Ee)]; unfold InvA, InvB, opening, lag, nbroken in *; cbn;
+        rewrite !cnt_map_same; try lia; intros k; apply cancel_kont_kinds.
+    + destruct (find_waiting t (blocks s)) as [b|]; [|discriminate]. inversion St; subst; clear St.
+      eapply keepA_Inv1; [|exact I]. apply kA_push; [reflexivity|]. apply kA_upd.
+      eapply sameA_keepA; [|apply keepA_refl]. sameA_tac.
   - (* ERun *)
     cbn in St. destruct (ready s) as [|k r] eqn:Er; inversion St; subst; clear St.
     set (s0 := set_ready r (set_outs [] s)).
     assert (Hh : harmless k = true -> Inv1 s0) by (intros; eapply Inv1_pop; eauto).
-    destruct k as [t d|t i ok|i|cid i res nodb|f c to|i c p br|did c a ok|t d|t i acc ok|t|t]; cbn [run_kont].
+    destruct k as [t d|t i ok|i|cid i res nodb|f c to|i c p br|did c a ok|t d|t i acc ok|t|t|t|t i]; cbn [run_kont].
     + eapply keepA_Inv1; [apply kA_acquire_start, keepA_refl|apply Hh; reflexivity].
     + eapply keepA_Inv1; [apply kA_acquire_wake, keepA_refl|apply Hh; reflexivity].
     + (* KConnStart *)
@@ -582,6 +599,8 @@ Proof.
     + eapply keepA_Inv1; [apply kA_prune_wake, keepA_refl|apply Hh; reflexivity].
     + eapply keepA_Inv1; [apply kA_gather_cb, keepA_refl|apply Hh; reflexivity].
     + eapply keepA_Inv1; [apply kA_emit, keepA_refl|apply Hh; reflexivity].
+    + eapply keepA_Inv1; [apply kA_emit, keepA_refl|apply Hh; reflexivity].
+    + eapply keepA_Inv1; [|apply Hh; reflexivity]. unfold acquire_cancelled. apply kA_emit, kA_set_nacq, kA_upd, keepA_refl.
 Qed.
 
 (* ================================================================== aspect 2: ownership *)
@@ -887,7 +906,7 @@ Proof. unfold zoccP, zocc. rewrite occP_map_pair. destruct (bid_eqb i j); reflex
 Arguments zocc : simpl never.
 Arguments zoccP : simpl never.
 
-Definition wk_res (w : tid * wk) : list conn := match snd w with WAcq => [] | WPrune acc => acc end.
+Definition wk_res (w : tid * wk) : list conn := match snd w with WPrune acc => acc | _ => [] end.
 Definition wres (b : blk) : list conn := flat_map wk_res b.(b_waiters).
 (* connections of a block that are in its dict but neither idle on the stack, nor lent, nor
    reserved by a suspended prune task: >= what is reserved for it in the ready queue *)
@@ -1092,25 +1111,42 @@ Proof. unfold wake_kont. destruct (snd w); reflexivity. Qed.
 Lemma slack_unfold c b : slack c b = zocc c (keys b) - zocc c b.(b_stack) - zocc c (inuse_keys b) - zocc c (wres b).
 Proof. reflexivity. Qed.
 
+Lemma wres_drop_done ws : flat_map wk_res (drop_done ws) = flat_map wk_res ws.
+Proof.
+  induction ws as [|w r IH]; cbn [drop_done]; [reflexivity|].
+  destruct (is_done w) eqn:E; [|reflexivity]. rewrite IH. cbn [flat_map].
+  destruct w as [t [|acc|]]; cbn in E; try discriminate. reflexivity.
+Qed.
 (* Block._wakeup_next_waiter *)
 Lemma Own_wakeup_next h hl hp i s : Own h hl hp s -> Own h hl hp (wakeup_next i s).
 Proof.
-  intros O. unfold wakeup_next. destruct (b_waiters (get_blk i s)) as [|w ws] eqn:Ew; [exact O|].
-  unfold push.
-  eapply Own_append with (h := map (pair i) (wk_res w) ++ h) (hl := hl) (hp := hp).
+  intros O. unfold wakeup_next. destruct (drop_done (b_waiters (get_blk i s))) as [|w ws] eqn:Ew.
   - eapply Own_upd_gen; [exact O|cbn; apply get_blk_id| | |].
     + intros b Ef. rewrite (get_blk_live _ _ _ Ef) in *. split; [|repeat split; side].
-      intros c. rewrite zoccP_app, zoccP_map_pair, bid_eqb_refl, !slack_unfold.
-      unfold keys, inuse_keys, wres. cbn [b_conns b_stack b_waiters set_b_waiters]. rewrite Ew.
-      cbn [flat_map]. rewrite zocc_app. lia.
-    + intros j Hj. split; [|lia]. intros c. rewrite zoccP_app, zoccP_map_pair.
-      assert (E : bid_eqb j i = false) by (apply bid_eqb_neq; exact Hj). rewrite E. lia.
-    + intros Ef. rewrite (get_blk_stale _ _ Ef) in Ew. discriminate.
-  - intros p. cbn [kres flat_map]. rewrite app_nil_r, kres_wake, zoccP_app. lia.
-  - intros c. cbn [flat_map]. rewrite limbo_wake. cbn [app]. rewrite zocc_nil. lia.
-  - intros j. cbn [sumK]. rewrite pipe_wake. lia.
+      intros c. rewrite !slack_unfold. unfold keys, inuse_keys, wres. bsimp.
+      rewrite <- (wres_drop_done (b_waiters b)), Ew. cbn [flat_map]. lia.
+    + intros j Hj. split; [intros; lia|lia].
+    + intros _. repeat split; intros; lia.
+  - unfold push.
+    eapply Own_append with (h := map (pair i) (wk_res w) ++ h) (hl := hl) (hp := hp).
+    + eapply Own_upd_gen; [exact O|cbn; apply get_blk_id| | |].
+      * intros b Ef. rewrite (get_blk_live _ _ _ Ef) in *. split; [|repeat split; side].
+        intros c. rewrite zoccP_app, zoccP_map_pair, bid_eqb_refl, !slack_unfold.
+        unfold keys, inuse_keys, wres. bsimp. rewrite <- (wres_drop_done (b_waiters b)), Ew.
+        cbn [flat_map]. rewrite zocc_app. lia.
+      * intros j Hj. split; [|lia]. intros c. rewrite zoccP_app, zoccP_map_pair.
+        assert (E : bid_eqb j i = false) by (apply bid_eqb_neq; exact Hj). rewrite E. lia.
+      * intros Ef. rewrite (get_blk_stale _ _ Ef) in Ew. discriminate.
+    + intros p. cbn [kres flat_map]. rewrite app_nil_r, kres_wake, zoccP_app. lia.
+    + intros c. cbn [flat_map]. rewrite limbo_wake. cbn [app]. rewrite zocc_nil. lia.
+    + intros j. cbn [sumK]. rewrite pipe_wake. lia.
 Qed.
 
+Lemma wres_filter ws : flat_map wk_res (filter (fun w => negb (is_done w)) ws) = flat_map wk_res ws.
+Proof.
+  induction ws as [|w r IH]; cbn [filter flat_map]; [reflexivity|].
+  destruct w as [t [|acc|]]; cbn [is_done snd negb flat_map]; rewrite IH; reflexivity.
+Qed.
 (* Block.abort_waiters *)
 Lemma Own_abort_waiters h hl hp i s : Own h hl hp s -> Own h hl hp (abort_waiters i s).
 Proof.
@@ -1127,7 +1163,7 @@ Proof.
     + intros Ef. subst b. rewrite (get_blk_stale _ _ Ef). cbn. repeat split; intros; lia.
   - intros p. unfold kres. rewrite flat_map_concat_map, map_map, <- flat_map_concat_map.
     erewrite flat_map_ext; [|intros w; apply kres_wake].
-    unfold wres. rewrite flat_map_map, zoccP_app. lia.
+    unfold wres. rewrite <- (flat_map_map (pair i) wk_res), wres_filter, zoccP_app. lia.
   - intros c. rewrite flat_map_concat_map, map_map, <- flat_map_concat_map.
     erewrite flat_map_ext; [|intros w; apply limbo_wake].
     assert (E : forall (l : list (tid * wk)), flat_map (fun _ => @nil N) l = []) by (induction l; auto).
@@ -1402,7 +1438,7 @@ Lemma si_fail s0 s : same_ids s0 s -> same_ids s0 (fail s).
 Proof. unfold same_ids. cbn. auto. Qed.
 
 Lemma si_wakeup_next s0 i s : same_ids s0 s -> same_ids s0 (wakeup_next i s).
-Proof. intros H. unfold wakeup_next. destruct (b_waiters _); [exact H|]. apply si_push, si_upd, H. Qed.
+Proof. intros H. unfold wakeup_next. destruct (drop_done _); [apply si_upd, H|]. apply si_push, si_upd, H. Qed.
 Lemma si_block_release s0 i c s : same_ids s0 s -> same_ids s0 (block_release i c s).
 Proof. intros H. unfold block_release. apply si_wakeup_next, si_upd, H. Qed.
 Lemma si_try_steal s0 i s r s' : try_steal i s = (r, s') -> same_ids s0 s -> same_ids s0 s'.
@@ -2235,6 +2271,27 @@ Proof.
   lia.
 Qed.
 
+Lemma flat_map_map_same {A B} (f : A -> list B) (g : A -> A) l : (forall k, f (g k) = f k) -> flat_map f (map g l) = flat_map f l.
+Proof. intros H. induction l as [|k l IH]; cbn [map flat_map]; [reflexivity|]. rewrite H, IH. reflexivity. Qed.
+Lemma sumK_map_same f (g : kont -> kont) l : (forall k, f (g k) = f k) -> sumK f (map g l) = sumK f l.
+Proof. intros H. induction l as [|k l IH]; cbn [map sumK]; [reflexivity|]. rewrite H, IH. reflexivity. Qed.
+Lemma cancel_kont_proj t k :
+  kont_res (cancel_kont t k) = kont_res k /\ kont_limbo (cancel_kont t k) = kont_limbo k /\
+  forall j, kont_pipe j (cancel_kont t k) = kont_pipe j k.
+Proof. destruct k; cbn; repeat split; try reflexivity; destruct (_ =? _)%N; reflexivity. Qed.
+Lemma find_waiting_In t bs b : find_waiting t bs = Some b -> In b bs.
+Proof.
+  induction bs as [|x r IH]; cbn [find_waiting]; [discriminate|].
+  destruct (has_wacq t (b_waiters x)); [intros H; inversion H; left; reflexivity|intros H; right; auto].
+Qed.
+Lemma wres_mark_done t ws : flat_map wk_res (mark_done t ws) = flat_map wk_res ws.
+Proof.
+  induction ws as [|[t' [|acc|]] r IH]; cbn [mark_done flat_map]; try reflexivity.
+  - destruct (t' =? t)%N; cbn [flat_map]; [reflexivity|]. rewrite IH. reflexivity.
+  - rewrite IH. reflexivity.
+  - rewrite IH. reflexivity.
+Qed.
+
 Lemma step_Own s e o s' : OwnI s -> step s e o = Some s' -> OwnI s'.
 Proof.
   unfold OwnI. intros O St.
@@ -2290,10 +2347,26 @@ Proof.
     + intros j. specialize (o10 j). rewrite sumK_app, (sumL_aremove _ _ _ _ El). cbn [sumK kont_pipe snd]. destruct a; lia.
   - destruct (tick_armed _); inversion St; subst. apply Own_tick, O0.
   - destruct (_ <? _); inversion St; subst. apply Own_run_gc, O0.
+  - (* ECancel *)
+    unfold cancel in St. cbn [ready blocks set_outs] in St.
+    destruct (existsb (is_task t) (ready s)).
+    + inversion St; subst; clear St.
+      destruct O as [o1 o2 o3 o4 o5 o6 o7 o8 o10 o11].
+      split; unfold limbo, npipe, kres in *; cbn; auto.
+      * intros j c. rewrite (flat_map_map_same kont_res); [apply o1|]. intros k; apply cancel_kont_proj.
+      * intros c. rewrite (flat_map_map_same kont_limbo); [apply o2|]. intros k; apply cancel_kont_proj.
+      * intros j. rewrite sumK_map_same; [apply o10|]. intros k; apply cancel_kont_proj.
+    + destruct (find_waiting t (blocks s)) as [b|] eqn:Ef; [|discriminate]. inversion St; subst; clear St.
+      unfold push. eapply Own_append with (h := []) (hl := []) (hp := []).
+      * eapply Own_upd_same_In; [exact O0|exact (find_waiting_In _ _ _ Ef)|].
+        unfold blk_same, wres. bsimp. repeat split; try reflexivity. apply wres_mark_done.
+      * intros p. cbn. rewrite zoccP_nil. lia.
+      * intros c. cbn. rewrite zocc_nil. lia.
+      * intros j. cbn. rewrite zoccB_nil. lia.
   - (* ERun *)
     cbn in St. destruct (ready s) as [|k r] eqn:Er; inversion St; subst; clear St.
     pose proof (Own_pop _ _ _ O Er) as Op.
-    destruct k as [t d|t i ok|i|cid i res nodb|f c to|i c p br|did c a ok|t d|t i acc ok|t|t];
+    destruct k as [t d|t i ok|i|cid i res nodb|f c to|i c p br|did c a ok|t d|t i acc ok|t|t|t|t i];
       cbn [run_kont kont_res kont_limbo kont_promise] in *.
     + apply Own_acquire_start, Op.
     + apply Own_acquire_wake, Op.
@@ -2306,6 +2379,9 @@ Proof.
     + apply Own_prune_wake. rewrite app_nil_r. exact Op.
     + apply Own_gather_cb, Op.
     + apply Own_emit, Op.
+    + apply Own_emit, Op.
+    + unfold acquire_cancelled. apply Own_emit, Own_set_nacq.
+      apply Own_upd_same with (i := i); [exact Op|unfold blk_same; bsimp; repeat split; reflexivity].
 Qed.
 
 Lemma Own_init mx : OwnI (init mx).
@@ -2339,10 +2415,12 @@ Proof.
   - destruct (alookup did _) as [[c a]|]; inversion St; subst. reflexivity.
   - destruct (tick_armed _); inversion St; subst. apply (kA_maxc _ _ (kA_tick o _ _ K0)).
   - destruct (_ <? _); inversion St; subst. apply (kA_maxc _ _ (kA_run_gc o _ _ K0)).
+  - unfold cancel in St. destruct (existsb _ _); [inversion St; subst; reflexivity|].
+    destruct (find_waiting _ _); inversion St; subst; reflexivity.
   - cbn in St. destruct (ready s) as [|k r] eqn:Er; inversion St; subst; clear St.
     set (s0 := set_ready r (set_outs [] s)).
     assert (R : forall x, keepA s0 x -> maxc x = maxc s) by (intros x K; rewrite (kA_maxc _ _ K); reflexivity).
-    destruct k as [t d|t i ok|i|cid i res nodb|f c to|i c p br|did c a ok|t d|t i acc ok|t|t]; cbn [run_kont].
+    destruct k as [t d|t i ok|i|cid i res nodb|f c to|i c p br|did c a ok|t d|t i acc ok|t|t|t|t i]; cbn [run_kont].
     + apply R, kA_acquire_start, keepA_refl.
     + apply R, kA_acquire_wake, keepA_refl.
     + reflexivity.
@@ -2359,6 +2437,8 @@ Proof.
     + apply R, kA_prune_start, keepA_refl.
     + apply R, kA_prune_wake, keepA_refl.
     + apply R, kA_gather_cb, keepA_refl.
+    + reflexivity.
+    + reflexivity.
     + reflexivity.
 Qed.
 
@@ -2541,7 +2621,7 @@ Lemma broken_conns_len s : zlen (broken_conns s) = nbroken s.
 Proof.
   unfold broken_conns, nbroken. rewrite zlen_app, zlen_map. f_equal.
   - induction (ready s) as [|k r IH]; [reflexivity|]. cbn [flat_map]. rewrite zlen_app, cnt_cons, IH.
-    destruct k as [t d|t i ok|i|cid i res nodb|f c0 to|i c0 p br|did c0 a ok|t d|t i acc ok|t|t]; cbn [kont_broken is_bstart b2z]; try destruct br; cbn [b2z]; rewrite ?zlen_cons, ?zlen_nil; lia.
+    destruct k as [t d|t i ok|i|cid i res nodb|f c0 to|i c0 p br|did c0 a ok|t d|t i acc ok|t|t|t|t i]; cbn [kont_broken is_bstart b2z]; try destruct br; cbn [b2z]; rewrite ?zlen_cons, ?zlen_nil; lia.
   - induction (infl_disc s) as [|e r IH]; [reflexivity|]. cbn [flat_map filter]. rewrite zlen_app, IH.
     unfold infl_broken, is_binfl. destruct (snd (snd e)) as [to|p [|]]; rewrite ?zlen_cons, ?zlen_nil; lia.
 Qed.
@@ -2592,7 +2672,7 @@ Lemma kont_broken_le p l : zoccP p (flat_map kont_broken l) <= zoccP p (kres l).
 Proof.
   unfold kres. induction l as [|k r IH]; cbn [flat_map]; [lia|].
   rewrite !zoccP_app. assert (zoccP p (kont_broken k) <= zoccP p (kont_res k)); [|lia].
-  destruct k as [t d|t i ok|i|cid i res nodb|f c0 to|i c0 p0 br|did c0 a ok|t d|t i acc ok|t|t]; cbn [kont_broken kont_res]; rewrite ?zoccP_nil; try apply zoccP_nonneg; try lia.
+  destruct k as [t d|t i ok|i|cid i res nodb|f c0 to|i c0 p0 br|did c0 a ok|t d|t i acc ok|t|t|t|t i]; cbn [kont_broken kont_res]; rewrite ?zoccP_nil; try apply zoccP_nonneg; try lia.
   destruct br; rewrite ?zoccP_nil; [lia|apply zoccP_nonneg].
 Qed.
 Lemma p_broken_are_open mx s : 0 <= mx -> reach mx s ->
@@ -2701,15 +2781,16 @@ Proof. unfold wake_kont. destruct (snd w); reflexivity. Qed.
 
 Lemma dk_wakeup_next s0 i s : dk s0 s -> dk s0 (wakeup_next i s).
 Proof.
-  intros K. unfold wakeup_next. destruct (b_waiters (get_blk i s)); [exact K|].
-  apply dk_push; [apply wsome_wake|]. apply dk_upd; [bsimp; rewrite get_blk_id; same_keys|exact K].
+  intros K. unfold wakeup_next. destruct (drop_done (b_waiters (get_blk i s))).
+  - apply dk_upd; [bsimp; rewrite get_blk_id; same_keys|exact K].
+  - apply dk_push; [apply wsome_wake|]. apply dk_upd; [bsimp; rewrite get_blk_id; same_keys|exact K].
 Qed.
 Lemma dk_abort_waiters s0 i s : dk s0 s -> dk s0 (abort_waiters i s).
 Proof.
   intros K. unfold abort_waiters.
   change (ready s) with (ready (upd (set_b_waiters [] (get_blk i s)) s)).
   apply dk_append; [|apply dk_upd; [bsimp; rewrite get_blk_id; same_keys|exact K]].
-  induction (b_waiters (get_blk i s)); cbn; [reflexivity|]. rewrite wsome_wake. assumption.
+  induction (filter _ (b_waiters (get_blk i s))); cbn; [reflexivity|]. rewrite wsome_wake. assumption.
 Qed.
 Lemma dk_block_release s0 i c s : dk s0 s -> dk s0 (block_release i c s).
 Proof. intros K. unfold block_release. apply dk_wakeup_next, dk_upd; [bsimp; rewrite get_blk_id; same_keys|exact K]. Qed.
@@ -3069,13 +3150,26 @@ Proof.
     eapply dk_DbI; [|exact D]. apply dk_push; [reflexivity|]. apply dk_eq with (s := s); try reflexivity. apply dk_refl.
   - destruct (tick_armed _); inversion St; subst. eapply dk_DbI; [apply dk_tick, K0|exact D].
   - destruct (_ <? _); inversion St; subst. eapply dk_DbI; [apply dk_run_gc, K0|exact D].
+  - (* ECancel *)
+    unfold cancel in St. cbn [ready blocks set_outs] in St.
+    destruct (existsb (is_task t) (ready s)).
+    + inversion St; subst; clear St. eapply dk_DbI; [|exact D].
+      split; cbn; auto.
+      * intros b' Hb c Hc. exists b'. auto.
+      * intros k Hk Wk. apply in_map_iff in Hk as (k0 & E & Hk0).
+        assert (cancel_kont t k0 = k0) as Ek; [|subst k; rewrite Ek; exact Hk0].
+        subst k. destruct k0; cbn in *; try reflexivity; destruct (_ =? _)%N; cbn in Wk; try reflexivity; discriminate.
+    + destruct (find_waiting t (blocks s)) as [b|] eqn:Ef; [|discriminate]. inversion St; subst; clear St.
+      eapply dk_DbI; [|exact D]. apply dk_push; [reflexivity|].
+      apply dk_upd_gen; [|exact K0]. bsimp. intros x Hx. exists b. repeat split; auto.
+      exact (find_waiting_In _ _ _ Ef).
   - cbn in St. destruct (ready s) as [|k r] eqn:Er; inversion St; subst; clear St.
     set (s0 := set_ready r (set_outs [] s)).
     assert (Kp : dk s s0).
     { split; cbn; auto.
       - intros b' Hb c Hc. exists b'. auto.
       - intros k0 Hk _. rewrite Er. right. exact Hk. }
-    destruct k as [t d|t i ok|i|cid i res nodb|f c to|i c p br|did c a ok|t d|t i acc ok|t|t]; cbn [run_kont].
+    destruct k as [t d|t i ok|i|cid i res nodb|f c to|i c p br|did c a ok|t d|t i acc ok|t|t|t|t i]; cbn [run_kont].
     + eapply dk_DbI; [apply dk_acquire_start, Kp|exact D].
     + eapply dk_DbI; [apply dk_acquire_wake, Kp|exact D].
     + eapply dk_DbI; [|exact D]. unfold call_connect, emit. apply dk_eq with (s := s0); try reflexivity. exact Kp.
@@ -3122,6 +3216,10 @@ Proof.
     + eapply dk_DbI; [apply dk_prune_wake, Kp|exact D].
     + eapply dk_DbI; [apply dk_gather_cb, Kp|exact D].
     + eapply dk_DbI; [|exact D]. apply dk_eq with (s := s0); try reflexivity. exact Kp.
+    + eapply dk_DbI; [|exact D]. apply dk_eq with (s := s0); try reflexivity. exact Kp.
+    + eapply dk_DbI; [|exact D]. unfold acquire_cancelled, emit.
+      apply dk_eq with (s := upd (set_b_nwait (b_nwait (get_blk i s0) - 1) (get_blk i s0)) s0); try reflexivity.
+      apply dk_upd; [bsimp; rewrite get_blk_id; same_keys|exact Kp].
 Qed.
 
 Lemma DbI_init mx : DbI (init mx).
@@ -3155,7 +3253,20 @@ Definition is_wok (i : bid) (k : kont) : bool :=
   end.
 Definition nwok (s : pool) (i : bid) : Z := cnt (is_wok i) s.(ready).
 (* a block with queued waiters never has more idle connections than successful wake-ups on their way *)
-Definition Pw (s : pool) (b : blk) : Prop := b.(b_waiters) <> [] -> zlen b.(b_stack) <= nwok s b.(b_id).
+Definition has_pending (ws : list (tid * wk)) : bool := existsb (fun w => negb (is_done w)) ws.
+(* cancelled (done) futures still sitting in the deque do not count: nobody can be woken through them *)
+Definition Pw (s : pool) (b : blk) : Prop :=
+  has_pending b.(b_waiters) = true -> zlen b.(b_stack) <= nwok s b.(b_id).
+Lemma has_pending_drop ws : has_pending (drop_done ws) = has_pending ws.
+Proof.
+  induction ws as [|w r IH]; cbn [drop_done]; [reflexivity|].
+  destruct (is_done w) eqn:E; [|reflexivity]. rewrite IH. unfold has_pending. cbn [existsb]. rewrite E. reflexivity.
+Qed.
+Lemma drop_done_head ws w r : drop_done ws = w :: r -> is_done w = false.
+Proof.
+  induction ws as [|x l IH]; cbn [drop_done]; [discriminate|].
+  destruct (is_done x) eqn:E; [exact IH|]. intros H; inversion H; subst; exact E.
+Qed.
 Definition W (s : pool) : Prop := forall b, In b s.(blocks) -> Pw s b.
 
 Lemma W_upd s b' : W s -> Pw s b' -> W (upd b' s).
@@ -3173,18 +3284,19 @@ Lemma W_push s k : W s -> W (push k s).
 Proof. apply W_append. Qed.
 Lemma W_blocks s bs : W s -> (forall b, In b bs -> In b s.(blocks) \/ b.(b_waiters) = []) -> W (set_blocks bs s).
 Proof.
-  intros Hw H b Hb Hne. cbn in Hb. destruct (H b Hb) as [Hin|E]; [|contradiction].
+  intros Hw H b Hb Hne. cbn in Hb. destruct (H b Hb) as [Hin|E]; [|rewrite E in Hne; discriminate].
   exact (Hw b Hin Hne).
 Qed.
 Lemma Pw_get s i : W s -> Pw s (get_blk i s).
 Proof.
   intros Hw. unfold get_blk. destruct (find_bid i (blocks s)) as [b|] eqn:Ef.
   - apply Hw. eapply find_bid_In; eauto.
-  - intros Hne. cbn in Hne. contradiction.
+  - intros Hne. cbn in Hne. discriminate.
 Qed.
 (* the stack does not grow and the waiters stay *)
 Lemma W_upd_le s i b' : W s -> b'.(b_id) = i ->
-  (b'.(b_waiters) <> [] -> (get_blk i s).(b_waiters) <> [] /\ zlen b'.(b_stack) <= zlen (get_blk i s).(b_stack)) ->
+  (has_pending b'.(b_waiters) = true ->
+     has_pending (get_blk i s).(b_waiters) = true /\ zlen b'.(b_stack) <= zlen (get_blk i s).(b_stack)) ->
   W (upd b' s).
 Proof.
   intros Hw E H. apply W_upd; [exact Hw|]. intros Hne. destruct (H Hne) as [H1 H2].
@@ -3194,55 +3306,62 @@ Ltac w_same i := apply (W_upd_le _ i); [assumption|bsimp; apply get_blk_id|bsimp
 
 Lemma W_wakeup_next i s : W s -> W (wakeup_next i s).
 Proof.
-  intros Hw. unfold wakeup_next. destruct (b_waiters (get_blk i s)) as [|w ws] eqn:Ew; [exact Hw|].
-  apply W_push. apply (W_upd_le _ i); [exact Hw|bsimp; apply get_blk_id|]. bsimp. intros _. rewrite Ew. split; [discriminate|lia].
+  intros Hw. unfold wakeup_next. destruct (drop_done (b_waiters (get_blk i s))) as [|w ws] eqn:Ew.
+  - apply W_upd; [exact Hw|]. intros Hne. cbn in Hne. discriminate.
+  - apply W_push. apply (W_upd_le _ i); [exact Hw|bsimp; apply get_blk_id|]. bsimp. intros Hne. split; [|lia].
+    rewrite <- has_pending_drop, Ew. unfold has_pending in *. cbn [existsb]. rewrite Hne. apply orb_true_r.
 Qed.
 Lemma W_abort_waiters i s : W s -> W (abort_waiters i s).
 Proof.
   intros Hw. unfold abort_waiters.
   change (ready s) with (ready (upd (set_b_waiters [] (get_blk i s)) s)). apply W_append.
-  apply W_upd; [exact Hw|]. intros Hne. cbn in Hne. contradiction.
+  apply W_upd; [exact Hw|]. intros Hne. cbn in Hne. discriminate.
 Qed.
-Lemma nwok_push_wake s i w : nwok (push (wake_kont i w true) s) i = nwok s i + 1.
+Lemma nwok_push_wake s i w : is_done w = false -> nwok (push (wake_kont i w true) s) i = nwok s i + 1.
 Proof.
-  unfold nwok, push. cbn. rewrite cnt_app, cnt_cons, cnt_nil. unfold wake_kont.
-  destruct (snd w); cbn [is_wok]; rewrite bid_eqb_refl; cbn [b2z]; lia.
+  intros Hd. unfold nwok, push. cbn. rewrite cnt_app, cnt_cons, cnt_nil. unfold wake_kont, is_done in *.
+  destruct (snd w); try discriminate; cbn [is_wok]; rewrite bid_eqb_refl; cbn [b2z]; lia.
+Qed.
+Lemma find_bid_upd_hit bs b' : find_bid (b_id b') bs <> None -> find_bid (b_id b') (upd_blk b' bs) = Some b'.
+Proof.
+  induction bs as [|x r IH]; cbn [find_bid upd_blk]; intros H; [contradiction|].
+  destruct (bid_eqb (b_id b') (b_id x)) eqn:E; cbn [find_bid]; [rewrite bid_eqb_refl; reflexivity|].
+  rewrite E. apply IH. exact H.
 Qed.
 (* Block.release: push and wake in one atomic section *)
 Lemma W_block_release i c s : W s -> W (block_release i c s).
 Proof.
   intros Hw. unfold block_release, wakeup_next.
   set (b := get_blk i s). set (s1 := upd (set_b_stack (b_stack b ++ [c]) b) s).
+  assert (Eid : b_id b = i) by apply get_blk_id.
   destruct (find_bid i (blocks s)) as [b0|] eqn:Ef.
   - assert (Eg : get_blk i s1 = set_b_stack (b_stack b ++ [c]) b).
     { subst s1. unfold get_blk, upd. cbn [blocks set_blocks].
-      assert (F : forall bs b', find_bid (b_id b') bs <> None -> find_bid (b_id b') (upd_blk b' bs) = Some b').
-      { induction bs as [|x r IH]; cbn [find_bid upd_blk]; intros b' H; [contradiction|].
-        destruct (bid_eqb (b_id b') (b_id x)) eqn:E; cbn [find_bid]; [rewrite bid_eqb_refl; reflexivity|].
-        rewrite E. apply IH. exact H. }
-      assert (Eid : b_id (set_b_stack (b_stack b ++ [c]) b) = i) by (bsimp; apply get_blk_id).
-      rewrite <- Eid at 1. rewrite F; [reflexivity|]. rewrite Eid, Ef. discriminate. }
-    rewrite Eg. bsimp. destruct (b_waiters b) as [|w ws] eqn:Ew.
-    + apply W_upd; [exact Hw|]. intros Hne. change (b_waiters b <> []) in Hne. rewrite Ew in Hne. contradiction.
-    + intros x Hx Hne. unfold push, upd in Hx. cbn in Hx.
+      assert (Eid2 : b_id (set_b_stack (b_stack b ++ [c]) b) = i) by (bsimp; exact Eid).
+      rewrite <- Eid2 at 1. rewrite find_bid_upd_hit; [reflexivity|]. rewrite Eid2, Ef. discriminate. }
+    rewrite Eg. bsimp. destruct (drop_done (b_waiters b)) as [|w ws] eqn:Ew.
+    + apply W_upd; [|intros Hne; cbn in Hne; discriminate].
+      apply W_upd; [exact Hw|]. intros Hne. change (has_pending (b_waiters b) = true) in Hne.
+      rewrite <- has_pending_drop, Ew in Hne. discriminate.
+    + assert (Hd : is_done w = false) by (eapply drop_done_head; eauto).
+      assert (Hp : has_pending (b_waiters b) = true).
+      { rewrite <- has_pending_drop, Ew. unfold has_pending. cbn [existsb]. rewrite Hd. reflexivity. }
+      assert (P : zlen (b_stack b) <= nwok s i).
+      { pose proof (Pw_get s i Hw Hp) as P. fold b in P. rewrite Eid in P. exact P. }
+      intros x Hx Hne. unfold push, upd in Hx. cbn in Hx.
+      assert (Nw : nwok (push (wake_kont i w true) (upd (set_b_waiters ws (set_b_stack (b_stack b ++ [c]) b)) s1)) i = nwok s i + 1).
+      { rewrite nwok_push_wake; [reflexivity|exact Hd]. }
       apply In_upd_blk in Hx as [->|Hx].
-      * bsimp. replace (b_id b) with i by (symmetry; apply get_blk_id). rewrite nwok_push_wake.
-        assert (P : Pw s b) by (apply Pw_get; exact Hw). unfold Pw in P. rewrite Ew in P.
-        specialize (P ltac:(discriminate)). replace (b_id b) with i in P by (symmetry; apply get_blk_id).
-        change (nwok (upd (set_b_waiters ws (set_b_stack (b_stack b ++ [c]) b)) s1) i) with (nwok s i).
-        rewrite zlen_app, zlen_cons, zlen_nil. lia.
+      * bsimp. rewrite Eid, Nw, zlen_app, zlen_cons, zlen_nil. lia.
       * apply In_upd_blk in Hx as [->|Hx].
-        -- bsimp. replace (b_id b) with i by (symmetry; apply get_blk_id). rewrite nwok_push_wake.
-           assert (P : Pw s b) by (apply Pw_get; exact Hw). unfold Pw in P. rewrite Ew in P.
-           specialize (P ltac:(discriminate)). replace (b_id b) with i in P by (symmetry; apply get_blk_id).
-           change (nwok (upd (set_b_waiters ws (set_b_stack (b_stack b ++ [c]) b)) s1) i) with (nwok s i).
-           rewrite zlen_app, zlen_cons, zlen_nil. lia.
+        -- bsimp. rewrite Eid, Nw, zlen_app, zlen_cons, zlen_nil. lia.
         -- specialize (Hw x Hx Hne). unfold nwok in *. cbn. rewrite cnt_app. pose proof (cnt_nonneg (is_wok (b_id x)) [wake_kont i w true]). lia.
   - (* stale block: nothing happens *)
     assert (E1 : s1 = set_blocks (blocks s) s).
-    { subst s1. unfold upd. rewrite upd_blk_none; [reflexivity|]. bsimp. subst b. rewrite get_blk_id. exact Ef. }
+    { subst s1. unfold upd. rewrite upd_blk_none; [reflexivity|]. bsimp. rewrite Eid. exact Ef. }
     assert (Eg : get_blk i s1 = stale_blk i) by (rewrite E1; unfold get_blk; cbn; rewrite Ef; reflexivity).
-    rewrite Eg. cbn. rewrite E1. apply (W_eq s); auto.
+    rewrite Eg. cbn. rewrite E1.
+    apply W_upd; [apply (W_eq s); auto|]. intros Hne. cbn in Hne. discriminate.
 Qed.
 
 Lemma W_try_steal i s r s' : try_steal i s = (r, s') -> W s -> W s'.
@@ -3381,7 +3500,7 @@ Qed.
 
 (* the state right after the loop popped a successful wake-up for block i: block i may be one short *)
 Definition Wd (i : bid) (s : pool) : Prop :=
-  forall b, In b s.(blocks) -> b.(b_waiters) <> [] ->
+  forall b, In b s.(blocks) -> has_pending b.(b_waiters) = true ->
     zlen b.(b_stack) <= nwok s b.(b_id) + (if bid_eqb b.(b_id) i then 1 else 0).
 Lemma In_upd_blk_nodup b' bs x :
   NoDup (map b_id bs) -> In x (upd_blk b' bs) -> x = b' \/ (In x bs /\ b_id x <> b_id b').
@@ -3581,9 +3700,27 @@ Proof.
   destruct discard; [apply W_sched_new_conn, W_sched_discard|apply W_release_unused]; exact W2.
 Qed.
 
-Lemma step_W s e o s' : OwnI s -> W s -> step s e o = Some s' -> W s'.
+Lemma has_pending_mark_done t ws : has_pending (mark_done t ws) = true -> has_pending ws = true.
 Proof.
-  intros O Hw St.
+  unfold has_pending. induction ws as [|[t' [|acc|]] r IH]; cbn [mark_done existsb is_done snd negb]; auto.
+  all: try (destruct (t' =? t)%N; cbn [existsb is_done snd negb]; auto).
+Qed.
+Lemma cnt_wok_cancel i t l : existsb (late_ok t) l = false -> cnt (is_wok i) (map (cancel_kont t) l) = cnt (is_wok i) l.
+Proof.
+  induction l as [|k l IH]; cbn [existsb map]; [reflexivity|]. intros H. apply orb_false_iff in H as [Hk Hl].
+  rewrite !cnt_cons, (IH Hl). f_equal. f_equal.
+  destruct k; cbn in *; try reflexivity; destruct (_ =? _)%N; try reflexivity.
+  destruct ok; [discriminate|reflexivity].
+Qed.
+
+(* a cancel is LATE when it hits a task whose waiter has already been woken successfully: the real
+   code then loses the wake-up (known finding C16-cancel-after-wakeup-loses-wakeup) *)
+Definition not_late (s : pool) (e : event) : Prop :=
+  match e with ECancel t => late_cancel s t = false | _ => True end.
+
+Lemma step_W s e o s' : OwnI s -> W s -> not_late s e -> step s e o = Some s' -> W s'.
+Proof.
+  intros O Hw NL St.
   assert (W0 : W (set_outs [] s)) by (apply (W_eq s); auto).
   destruct e; cbn [step] in St.
   - destruct (_ =? _)%N; inversion St; subst. apply W_push. apply (W_eq s); auto.
@@ -3595,6 +3732,15 @@ Proof.
   - destruct (alookup did _) as [[c a]|]; inversion St; subst. apply W_push. apply (W_eq s); auto.
   - destruct (tick_armed _); inversion St; subst. apply W_tick, W0.
   - destruct (_ <? _); inversion St; subst. apply W_run_gc, W0.
+  - (* ECancel *)
+    unfold cancel in St. cbn [ready blocks set_outs] in St. cbn [not_late] in NL. unfold late_cancel in NL.
+    destruct (existsb (is_task t) (ready s)).
+    + inversion St; subst; clear St. apply (W_mono s); [exact Hw|reflexivity|].
+      intros i. unfold nwok. cbn. rewrite cnt_wok_cancel; [lia|exact NL].
+    + destruct (find_waiting t (blocks s)) as [b|] eqn:Ef; [|discriminate]. inversion St; subst; clear St.
+      apply W_push. apply W_upd; [exact W0|].
+      intros Hne. cbn [b_waiters set_b_waiters] in Hne. apply has_pending_mark_done in Hne. bsimp.
+      exact (Hw b (find_waiting_In _ _ _ Ef) Hne).
   - cbn in St. destruct (ready s) as [|k r] eqn:Er; inversion St; subst; clear St.
     set (s0 := set_ready r (set_outs [] s)).
     assert (ND : NoDup (map b_id (blocks s0))) by exact (own_ids _ _ _ _ O).
@@ -3608,7 +3754,7 @@ Proof.
     assert (Wp : (forall j, is_wok j k = false) -> W s0).
     { intros Hk b Hb Hne. specialize (Hw b Hb Hne). unfold nwok in *. rewrite Er, cnt_cons, Hk in Hw. cbn [b2z] in Hw.
       change (ready s0) with r. lia. }
-    destruct k as [t d|t i ok|i|cid i res nodb|f c to|i c p br|did c a ok|t d|t i acc ok|t|t]; cbn [run_kont].
+    destruct k as [t d|t i ok|i|cid i res nodb|f c to|i c p br|did c a ok|t d|t i acc ok|t|t|t|t i]; cbn [run_kont].
     + apply W_acquire_start, Wp; intros; reflexivity.
     + destruct ok.
       * apply W_acquire_wake_ok; [exact ND|]. apply Hd. intros j Hj. cbn in Hj. apply bid_eqb_eq in Hj. exact Hj.
@@ -3631,23 +3777,34 @@ Proof.
       * apply W_prune_wake_fail, Wp; intros; reflexivity.
     + apply W_gather_cb, Wp; intros; reflexivity.
     + apply (W_eq s0); auto; apply Wp; intros; reflexivity.
+    + apply (W_eq s0); auto; apply Wp; intros; reflexivity.
+    + unfold acquire_cancelled, emit.
+      apply (W_eq (upd (set_b_nwait (b_nwait (get_blk i s0) - 1) (get_blk i s0)) s0)); try reflexivity.
+      assert (Wq : W s0) by (apply Wp; intros; reflexivity). w_same i.
 Qed.
 
-Lemma reach_W mx s : 0 <= mx -> reach mx s -> W s.
+(* runs in which no cancel hits an already woken task *)
+Inductive reachN (mx : Z) : pool -> Prop :=
+ | reachN_init : reachN mx (init mx)
+ | reachN_step s e o s' : reachN mx s -> not_late s e -> step s e o = Some s' -> reachN mx s'.
+Lemma reachN_reach mx s : reachN mx s -> reach mx s.
+Proof. induction 1; [apply reach_init|eapply reach_step; eauto]. Qed.
+
+Lemma reach_W mx s : 0 <= mx -> reachN mx s -> W s.
 Proof.
-  intros Hm R. induction R as [|s e o s' R IH St]; [intros b []|].
-  destruct (reach_Inv _ _ Hm R) as (_ & O & _). eapply step_W; eauto.
+  intros Hm R. induction R as [|s e o s' R IH NL St]; [intros b []|].
+  destruct (reach_Inv _ _ Hm (reachN_reach _ _ R)) as (_ & O & _). eapply step_W; eauto.
 Qed.
 
-(* ---- C16: no lost wake-up *)
-Lemma p_no_lost_wakeup mx s b : 0 <= mx -> reach mx s -> In b s.(blocks) -> b.(b_waiters) <> [] ->
-  zlen b.(b_stack) <= nwok s b.(b_id).
+(* ---- C16: no lost wake-up (cancelled futures sitting in the deque do not count as waiters) *)
+Lemma p_no_lost_wakeup mx s b : 0 <= mx -> reachN mx s -> In b s.(blocks) ->
+  has_pending b.(b_waiters) = true -> zlen b.(b_stack) <= nwok s b.(b_id).
 Proof. intros Hm R Hb Hne. exact (reach_W _ _ Hm R b Hb Hne). Qed.
-Lemma p_quiescent_no_idle_with_waiters mx s b : 0 <= mx -> reach mx s -> In b s.(blocks) -> s.(ready) = [] ->
-  b.(b_waiters) = [] \/ b.(b_stack) = [].
+Lemma p_quiescent_no_idle_with_waiters mx s b : 0 <= mx -> reachN mx s -> In b s.(blocks) -> s.(ready) = [] ->
+  has_pending b.(b_waiters) = false \/ b.(b_stack) = [].
 Proof.
-  intros Hm R Hb E. destruct (b_waiters b) as [|w ws] eqn:Ew; [left; reflexivity|right].
-  pose proof (p_no_lost_wakeup _ _ b Hm R Hb) as P. rewrite Ew in P. specialize (P ltac:(discriminate)).
+  intros Hm R Hb E. destruct (has_pending (b_waiters b)) eqn:Ew; [right|left; reflexivity].
+  pose proof (p_no_lost_wakeup _ _ b Hm R Hb Ew) as P.
   unfold nwok in P. rewrite E, cnt_nil in P. destruct (b_stack b); [reflexivity|rewrite zlen_cons in P; pose proof (zlen_nonneg l); lia].
 Qed.
 
@@ -3678,7 +3835,7 @@ Lemma p_retry_or_abort s i b nodb :
      s'.(ready) = s.(ready) ++ [KConnStart i] /\ s'.(cur) = s.(cur) /\
      exists b', find_bid i s'.(blocks) = Some b' /\ b'.(b_waiters) = b.(b_waiters) /\ b'.(b_pending) = b.(b_pending)) /\
   (RETRIES < f2 ->
-     s'.(ready) = s.(ready) ++ map (fun w => wake_kont i w false) b.(b_waiters) /\ s'.(cur) = s.(cur) - 1 /\
+     s'.(ready) = s.(ready) ++ map (fun w => wake_kont i w false) (filter (fun w => negb (is_done w)) b.(b_waiters)) /\ s'.(cur) = s.(cur) - 1 /\
      exists b', find_bid i s'.(blocks) = Some b' /\ b'.(b_waiters) = [] /\ b'.(b_pending) = b.(b_pending) - 1).
 Proof.
   intros ND Ef f2 s'. subst s'. unfold connect_wake.
